@@ -12,7 +12,7 @@ transcription of /repo's `CheckIncoming` and the rule of the property). The driv
 import DhtVerif.Lemmas.B44
 import DhtVerif.Lemmas.C13
 import DhtVerif.Lemmas.C13Conc
-import DhtVerif.Props.SourceTrees
+import DhtVerif.Props.STCheckIncoming
 namespace Dht
 open B44
 
